@@ -78,7 +78,7 @@ def invariants(sc):
 
 class C16(Prop):
     id = 'C16'
-    quick_cases = 1500
+    quick_cases = 3000
     thorough_cases = 50000
     rule = ('random edit scripts of ~30 add/remove/rename/move state and add/remove/rotate transition calls (≈30 % '
             'invalid arguments: unknown names, existing names, descendants as new parent, final/history sources, …) on '
